@@ -328,5 +328,11 @@ func ValidateOpenMsg(m *BGPOpen, expectedAS uint32, myAS uint32, myId netip.Addr
 	if m.HoldTime < 3 && m.HoldTime != 0 {
 		return 0, NewMessageError(BGP_ERROR_OPEN_MESSAGE_ERROR, BGP_ERROR_SUB_UNACCEPTABLE_HOLD_TIME, nil, fmt.Sprintf("unacceptable hold time %d", m.HoldTime))
 	}
+	for _, p := range m.OptParams {
+		if u, ok := p.(*OptionParameterUnknown); ok {
+			// RFC 4271 6.2: an Optional Parameter that is not recognized
+			return 0, NewMessageError(BGP_ERROR_OPEN_MESSAGE_ERROR, BGP_ERROR_SUB_UNSUPPORTED_OPTIONAL_PARAMETER, nil, fmt.Sprintf("unsupported optional parameter %d", u.ParamType))
+		}
+	}
 	return as, nil
 }
